@@ -155,7 +155,6 @@ func (j *cacheJanitor[MetadataT]) cleanExpiredEntries() {
 
 	endCacheSize := j.cacheFns.getCacheSize()
 	verifhook.Point("janitor.beforePublish", "sweep")
-	metrics.Global.Cache.BytesCached.Set(endCacheSize)
 	metrics.Global.Cache.BytesCleaned.Add(startCacheSize - endCacheSize)
 
 	slog.Info("Cache cleanup complete", "new_size", endCacheSize)
@@ -230,7 +229,6 @@ func (j *cacheJanitor[MetadataT]) evict(maxCacheBytes int64) {
 
 	endCacheSize := j.cacheFns.getCacheSize()
 	verifhook.Point("janitor.beforePublish", "evict")
-	metrics.Global.Cache.BytesCached.Set(endCacheSize)
 	metrics.Global.Cache.BytesCleaned.Add(startCacheSize - endCacheSize)
 
 	slog.Info("Cache eviction complete", "evicted_entries", evictions, "new_size", endCacheSize)
